@@ -721,12 +721,17 @@ func runSched(c caseIn) *caseOut {
 			}
 		}
 	}
-	// revocation against activation: a revocation that returned nil after writing the revoked record (its last storage
-	// action is the Set of the by-id record; a nil return through Update's delete branch on an already expired code
+	// revocation against activation: a revocation that returned nil after writing the revoked record (it performed
+	// the Set of the by-id record; a nil return through Update's delete branch on an already expired code
 	// writes nothing and is not counted) and an activation of the same code must never both succeed
 	for r, t := range c.Threads {
-		tr := out.Threads[r].Trace
-		if t.Kind != "rev" || out.Threads[r].Res != 0 || len(tr) == 0 || tr[len(tr)-1] != opSetID {
+		wrote := false
+		for _, op := range out.Threads[r].Trace {
+			if op == opSetID {
+				wrote = true
+			}
+		}
+		if t.Kind != "rev" || out.Threads[r].Res != 0 || !wrote {
 			continue
 		}
 		for _, a := range oks {
